@@ -176,7 +176,7 @@ Fixpoint containsb (s p : list N) : bool :=
 Definition concat_v (x y : list N) : option (list N) :=
   if (Z.of_nat (length x + length y) <=? str_max)%Z then Some (x ++ y) else None.
 Definition char_at_v (s : list N) (i : Z) : option Z :=
-  if ((0 <=? i) && (i <? Z.of_nat (length s)))%Z then Some (Z.of_N (nth (Z.to_nat i) s 0%N)) else None.
+  if ((0 <=? i) && (i <? Z.of_nat (length s)))%Z then Some (Z.of_N (nth (Z.to_nat i) s 0%N mod 256)) else None.     (* (unsigned char)s[i] *)
 (* start beyond the end: the empty string; start + length beyond the end: up to the end (the operands are clamped to the
    length before they become naturals) *)
 Definition substr_v (s : list N) (st ln : Z) : option (list N) :=
